@@ -1,6 +1,7 @@
 package sim
 
 import (
+	"fmt"
 	"math/big"
 	"time"
 
@@ -8,6 +9,7 @@ import (
 	oracletypes "github.com/tellor-io/layer/x/oracle/types"
 	reportertypes "github.com/tellor-io/layer/x/reporter/types"
 
+	"cosmossdk.io/collections"
 	"cosmossdk.io/math"
 
 	sdk "github.com/cosmos/cosmos-sdk/types"
@@ -196,6 +198,169 @@ func (m *C09ChainMonitor) EndBlockExit(c *Chain, ctx sdk.Context, err error) {
 		diff := sum.Sub(math.LegacyNewDecFromInt(in)).Abs()
 		if diff.GT(math.LegacyNewDecWithPrec(n+int64(anyAgg)+2, 18)) {
 			c.Violate("C09", "c09chain", "credits-of-the-block-do-not-sum-to-the-rewards-paid", map[string]interface{}{"credited": sum.String(), "moved_into_escrow": in.String(), "credits_written": n})
+		}
+	}
+	m.shares(c, ctx, h, paid, after)
+}
+
+// shares: "each reporter's part is proportional to the reporting power it contributed to the rewarded aggregates", on the
+// chain: the rounds aggregated in this block are classed by the cycle-list mark of their reports (all marked / none
+// marked / mixed - blocks with a mixed round are skipped); a round whose reports are all marked is a cycle-list or
+// deposit aggregate, so it takes part in the time-based reward of the block; every tipped round pays its own tip. What the
+// selectors behind each reporter were credited in this block (SelectorTips deltas of the delegators in that reporter's
+// stake snapshots, and of the reporter itself) must be the sum of those parts.
+func (m *C09ChainMonitor) shares(c *Chain, ctx sdk.Context, h uint64, paid math.Int, after map[string]math.LegacyDec) {
+	aggs := c.App.OracleKeeper.GetAggregatedReportsByHeight(ctx, h)
+	type round struct {
+		agg      oracletypes.Aggregate
+		tip      math.Int
+		all, any bool
+	}
+	var rounds []round
+	for _, agg := range aggs {
+		if len(agg.Reporters) == 0 {
+			continue // withdrawal aggregate
+		}
+		q, ok := m.queries[fmt.Sprintf("%x|%d", agg.QueryId, agg.MetaId)]
+		if !ok {
+			return
+		}
+		r := round{agg: agg, tip: q.Amount, all: true}
+		nrep := 0
+		_ = c.App.OracleKeeper.Reports.Walk(ctx, collections.NewPrefixedTripleRange[[]byte, []byte, uint64](agg.QueryId), func(k collections.Triple[[]byte, []byte, uint64], mr oracletypes.MicroReport) (bool, error) {
+			if k.K3() != agg.MetaId {
+				return false, nil
+			}
+			nrep++
+			if mr.Cyclelist {
+				r.any = true
+			} else {
+				r.all = false
+			}
+			return false, nil
+		})
+		if nrep == 0 {
+			return
+		}
+		rounds = append(rounds, r)
+	}
+	if len(rounds) == 0 {
+		return
+	}
+	eligible, mixed := 0, 0
+	for _, r := range rounds {
+		if r.all {
+			eligible++
+		} else if r.any {
+			mixed++
+		}
+	}
+	m.st.Bucket("c09chain|shares|rounds=%d|all-marked=%d|mixed=%d|tbr-paid=%v|tipped=%d", minInt(len(rounds), 3), minInt(eligible, 3), minInt(mixed, 2), paid.IsPositive(), minInt(func() int {
+		n := 0
+		for _, r := range rounds {
+			if r.tip.IsPositive() {
+				n++
+			}
+		}
+		return n
+	}(), 3))
+	if mixed > 0 {
+		m.st.Count("c09.shares.skipped-round-with-mixed-marks")
+		return
+	}
+	if eligible > 0 && m.tbr.IsPositive() && !paid.IsPositive() {
+		c.Violate("C09", "c09chain", "reward-pool-not-paid-out-although-a-cycle-list-or-deposit-aggregate-was-made", map[string]interface{}{"pool": m.tbr.String(), "aggregates_of_marked_reports": eligible})
+		return
+	}
+	// expected part of every reporter
+	want := map[string]math.LegacyDec{}
+	add := func(rep string, d math.LegacyDec) {
+		if old, ok := want[rep]; ok {
+			want[rep] = old.Add(d)
+		} else {
+			want[rep] = d
+		}
+	}
+	totalEligible := uint64(0)
+	powEligible := map[string]uint64{}
+	for _, r := range rounds {
+		tot := uint64(0)
+		for _, x := range r.agg.Reporters {
+			tot += x.Power
+		}
+		if tot == 0 {
+			return
+		}
+		for _, x := range r.agg.Reporters {
+			if r.tip.IsPositive() {
+				add(x.Reporter, math.LegacyNewDec(int64(x.Power)).Quo(math.LegacyNewDec(int64(tot))).Mul(math.LegacyNewDecFromInt(r.tip)))
+			} else {
+				add(x.Reporter, math.LegacyZeroDec())
+			}
+			if r.all {
+				powEligible[x.Reporter] += x.Power
+				totalEligible += x.Power
+			}
+		}
+	}
+	if paid.IsPositive() {
+		if totalEligible == 0 {
+			return // reported by the clause above (paid without a cycle-list or deposit aggregate)
+		}
+		for rep, p := range powEligible {
+			add(rep, math.LegacyNewDec(int64(p)).Quo(math.LegacyNewDec(int64(totalEligible))).Mul(math.LegacyNewDecFromInt(paid)))
+		}
+	}
+	// the accounts behind every reporter: the reporter and the delegators of its snapshots for these reports
+	behind := map[string]map[string]bool{}
+	owner := map[string]string{}
+	for _, r := range rounds {
+		for _, x := range r.agg.Reporters {
+			addr, err := sdk.AccAddressFromBech32(x.Reporter)
+			if err != nil {
+				return
+			}
+			set := behind[x.Reporter]
+			if set == nil {
+				set = map[string]bool{string(addr): true}
+				behind[x.Reporter] = set
+			}
+			snap, err := c.App.ReporterKeeper.Report.Get(ctx, collJoinReport(r.agg.QueryId, addr, x.BlockNumber))
+			if err != nil {
+				m.st.Count("c09.shares.skipped-no-stake-snapshot")
+				return
+			}
+			for _, o := range snap.TokenOrigins {
+				set[string(o.DelegatorAddress)] = true
+			}
+		}
+	}
+	for rep, set := range behind {
+		for d := range set {
+			if o, taken := owner[d]; taken && o != rep {
+				m.st.Count("c09.shares.skipped-account-behind-two-reporters")
+				return
+			}
+			owner[d] = rep
+		}
+	}
+	m.st.Count("c09.shares.evals")
+	tol := math.LegacyNewDecWithPrec(1, 3) // a thousandth of a loya: far above the 10^-18 roundings, far below any share
+	for rep, set := range behind {
+		got := math.LegacyZeroDec()
+		for d := range set {
+			a, ok := after[d]
+			if !ok {
+				continue
+			}
+			if b, had := m.credits[d]; had {
+				a = a.Sub(b)
+			}
+			got = got.Add(a)
+		}
+		if w := want[rep]; got.Sub(w).Abs().GT(tol) {
+			c.Violate("C09", "c09chain", "reporters-part-of-the-block-rewards-not-proportional-to-its-power-in-the-rewarded-aggregates", map[string]interface{}{"reporter": rep, "credited": got.String(), "want": w.String(), "tbr_paid": paid.String(), "rounds": len(rounds), "all_marked": eligible})
+			return
 		}
 	}
 }
